@@ -1,5 +1,5 @@
 CONSTANTS
-  Codecs = {"cachecontrol", "b64", "basic", "authparam", "set"}
+  Codecs = {"cachecontrol", "b64", "basic", "authparam", "set", "setv"}
   Law = "inv"
   Lens <- LenT
   Items <- ItemsT
